@@ -242,6 +242,30 @@ pub fn run(args: &[String]) -> i32 {
             }
         }
     }
+    // 3d. items whose serde name sorts on the other side of a neighbour than their Rust name, one per file: every arrival
+    //     order, every language (single-file mode merges the files into one list; multi-file mode, a crate per file, as a control)
+    {
+        let srcs = [
+            "#[typeshare]\n#[serde(rename = \"Zulu\")]\npub struct Alpha { pub a: u32 }\n",
+            "#[typeshare]\npub struct Mike { pub m: u32 }\n",
+            "#[typeshare]\n#[serde(rename = \"Bravo\")]\npub struct Yankee { pub y: u32 }\n",
+            "#[typeshare]\n#[serde(rename = \"November\", tag = \"t\", content = \"c\")]\npub enum Charlie { One(u32), Two }\n#[typeshare]\n#[serde(rename = \"Delta\")]\npub type Xray = Vec<u32>;\n",
+        ];
+        let stems: Vec<&str> = STEMS[..4].to_vec();
+        for perm in permutations(4) {
+            for &lang in &ALL_LANGS {
+                for multi in [false, true] {
+                    if !thorough && multi && !matches!(lang, Lang::TypeScript | Lang::Kotlin) {
+                        continue;
+                    }
+                    let files: Vec<(String, String)> = stems.iter().zip(srcs.iter()).map(|(s, c)| (s.to_string(), c.to_string())).collect();
+                    let mut schedule = e3::start_barrier(&stems);
+                    schedule.extend(perm.iter().map(|i| format!("send:{}", stems[*i])));
+                    jobs.push(Job { class: format!("renamed-across-files|{}|multi={multi}", lang.name()), files, schedule, expect_events: None, lang, multi, threads: 4, family: "renamed-items-across-files" });
+                }
+            }
+        }
+    }
     // 4. thread counts 1..16, free running (no forced schedule)
     for t in 1..=16usize {
         for &lang in &[Lang::TypeScript, Lang::Go] {
@@ -473,6 +497,57 @@ pub fn run(args: &[String]) -> i32 {
         }
         rep.cov("files_shared_by_two_crates", json!({"runs": jobs3.len(), "thread_counts": [1, 2, 3, 4, 8, 16], "schedule": "free running (observed, not forced)", "languages": ["typescript", "kotlin"], "layout": "crate alpha: 12 files; crate beta: 12 symbolic links to them + 1 own file"}));
         rep.cov_add("evaluations", jobs3.len() as u64);
+    }
+    // 5d. crates nested in a crate's directory and annotated files outside any src, multi-file mode, free running at
+    //     several thread counts: which crate a file belongs to is a function of its path, so every run gives the same files
+    {
+        use crate::cli::{self, run_cli, s, Scratch};
+        let mut jobs4: Vec<(Lang, usize)> = Vec::new();
+        for lang in [Lang::TypeScript, Lang::Kotlin] {
+            for t in [1usize, 2, 3, 4, 8, 16] {
+                for _ in 0..(if thorough { 6 } else { 3 }) {
+                    jobs4.push((lang, t));
+                }
+            }
+        }
+        let res4: Vec<(&'static str, BTreeMap<String, Vec<u8>>, String)> = par_map(&jobs4, report::threads(), |(lang, t)| {
+            let sc = Scratch::new("c06n");
+            for i in 0..8 {
+                sc.write(&format!("ws/outer/src/m{i}.rs"), format!("#[typeshare]\npub struct Outer{i} {{ pub v: u32 }}\n").as_bytes());
+                sc.write(&format!("ws/second/src/m{i}.rs"), format!("#[typeshare]\npub struct Second{i} {{ pub v: u32 }}\n").as_bytes());
+            }
+            sc.write("ws/outer/crates/inner/src/lib.rs", b"#[typeshare]\npub struct Inner { pub v: u32 }\n");
+            sc.write("ws/outer/crates/inner/src/more.rs", b"#[typeshare]\npub struct InnerMore { pub v: u32 }\n");
+            sc.write("ws/outer/examples/demo.rs", b"#[typeshare]\npub struct ExampleOnly { pub v: u32 }\n");
+            sc.write("ws/second/benches/b.rs", b"#[typeshare]\npub struct BenchOnly { pub v: u32 }\n");
+            sc.mkdir("out");
+            let mut args = cli::lang_args(*lang);
+            args.extend([s("-d"), sc.path("out").to_string_lossy().into_owned(), sc.path("ws").to_string_lossy().into_owned()]);
+            let r = run_cli(&args, &sc.root, &[("TYPESHARE_VERIF_THREADS", t.to_string())], cli::TIMEOUT);
+            (r.class(), cli::snapshot(&sc.path("out")), r.stderr.chars().take(300).collect())
+        });
+        let mut per_lang: BTreeMap<&'static str, BTreeMap<String, usize>> = BTreeMap::new();
+        for (i, ((lang, t), (class, outs, stderr))) in jobs4.iter().zip(res4.iter()).enumerate() {
+            if *class != "ok" {
+                rep.vios.add(Violation { sig: format!("C06|run-failed:{class}|family=nested-crates|{}", lang.name()), detail: json!({"threads": t, "stderr": stderr}) });
+                continue;
+            }
+            let key = outs.iter().map(|(k, v)| format!("== {k}\n{}", String::from_utf8_lossy(v))).collect::<Vec<_>>().join("\n");
+            per_lang.entry(lang.name()).or_default().entry(key).or_insert(i);
+        }
+        for (lang, outs) in &per_lang {
+            if outs.len() > 1 {
+                let idx: Vec<usize> = outs.values().copied().collect();
+                let names = |i: usize| res4[i].1.iter().map(|(k, v)| (k.clone(), v.len())).collect::<Vec<_>>();
+                rep.vios.add(Violation {
+                    sig: format!("C06|nondeterministic-output|scheduling|nested-crates|{lang}|mode=multi"),
+                    detail: json!({"distinct_outputs": outs.len(), "run_a": {"threads": jobs4[idx[0]].1, "files": names(idx[0])}, "run_b": {"threads": jobs4[idx[1]].1, "files": names(idx[1])},
+                        "layout": "crates outer and second with 8 files each, crate inner nested in outer/crates, annotated files under outer/examples and second/benches"}),
+                });
+            }
+        }
+        rep.cov("nested_crates", json!({"runs": jobs4.len(), "thread_counts": [1, 2, 3, 4, 8, 16], "schedule": "free running (observed, not forced)", "languages": ["typescript", "kotlin"]}));
+        rep.cov_add("evaluations", jobs4.len() as u64);
     }
     // 6. hash-order family (in-process, forced iteration orders)
     hashorder::c06_family(&mut rep);
